@@ -127,6 +127,11 @@ func (a *stubApp) serve(w http.ResponseWriter, r *http.Request) {
 	arr.W, arr.WPos, arr.WErr = done, wpos, werr
 	a.mu.Unlock()
 	w.Header().Set("X-C19-Stub", a.node.Name)
+	// like a real application: a cookie of its own and a header with several values on every response
+	w.Header().Add("Set-Cookie", "session=s-"+id+"; Path=/")
+	w.Header().Add("Set-Cookie", "theme=dark; Path=/")
+	w.Header().Add("Vary", "Cookie")
+	w.Header().Add("Vary", "Accept-Encoding")
 	w.WriteHeader(http.StatusOK)
 	if r.Method != http.MethodHead {
 		_, _ = w.Write([]byte("ok\n"))
